@@ -78,6 +78,18 @@ Qed.
 
 Ltac wl_proj := cbn [wl_procs wl_will wl_auth wl_setup wl_disc wl_pubs wl_terms] in *.
 
+Ltac fwd :=
+  repeat match goal with
+  | Hx : ?a = ?a -> _ |- _ => specialize (Hx eq_refl)
+  | Hx : ?P -> _, Hy : ?P |- _ => specialize (Hx Hy)
+  end.
+
+Ltac wfin :=
+  unfold will_R'; sf; wl_proj; cbn [connecting negb procs_of andb orb];
+  repeat split; intros;
+  repeat match goal with Hx : _ \/ _ |- _ => destruct Hx | Hx : _ /\ _ |- _ => destruct Hx end;
+  fwd; subst; try discriminate; try congruence; auto.
+
 (* ----------------------------------------------------------- the processor *)
 
 Lemma will_proc s t e s' g gp0 :
@@ -117,9 +129,7 @@ Proof.
       assert (Hs : setup = false).
       { destruct setup; [|reflexivity]. destruct (W4 eq_refl) as [_ Hx]. contradiction. }
       subst setup.
-      destruct p; inv_some Hp; (eexists; split; [reflexivity|]); sf; wl_proj; cbn [connecting negb procs_of];
-        repeat split; intros; try discriminate; try congruence; auto.
-      * destruct H as [H|H]; congruence.
+      destruct p; inv_some Hp; (eexists; split; [reflexivity|]); rewrite ?Hi2; wfin.
     + (* main loop *)
       assert (Hph : ph s <> Connecting).
       { intros Hx. destruct (Hi1 Hx) as (Hy & _). rewrite Epp in Hy. discriminate Hy. }
@@ -129,20 +139,14 @@ Proof.
       { destruct procs; [|exact I]. destruct setup; [|reflexivity]. destruct (W4 eq_refl) as [Hx _].
         destruct gp0; [discriminate W1|contradiction]. }
       destruct p; bm Hp; inv_some Hp; cbn [wl_step]; rewrite Hprocs;
-        try (eexists; split; [reflexivity|]); sf; wl_proj; cbn [connecting negb procs_of andb orb];
-        try (repeat split; intros; try discriminate; try congruence; auto; fail).
+        try (eexists; split; [reflexivity|]); try solve [wfin].
       * (* a second CONNECT *)
-        destruct procs; (eexists; split; [reflexivity|]); wl_proj;
-          repeat split; intros; try discriminate; try congruence; auto.
+        destruct procs; (eexists; split; [reflexivity|]); wfin.
       * (* DISCONNECT *)
-        repeat split; intros; try discriminate; try congruence; auto.
-        -- destruct setup; [discriminate|reflexivity].
-        -- apply W4; assumption.
-        -- subst setup. reflexivity.
+        wfin. destruct setup; [discriminate|reflexivity].
   - (* ERxErr *)
     destruct (pp s) eqn:Epp; try discriminate Hp; inv_some Hp; cbn [wl_step]; rewrite Hprocs;
-      (eexists; split; [reflexivity|]); sf; wl_proj; cbn [procs_of];
-      repeat split; intros; try discriminate; try congruence; auto.
+      (eexists; split; [reflexivity|]); wfin.
   - (* EAuth AOk *)
     destruct Hgp0 as [->|[_ Hx]]; [|discriminate Hx].
     destruct (pp s) eqn:Epp; try discriminate Hp. destruct r; try discriminate Hn. inv_some Hp.
@@ -150,24 +154,18 @@ Proof.
     assert (Hs : setup = false).
     { destruct setup; [|reflexivity]. destruct (W4 eq_refl) as [_ Hx]. contradiction. }
     subst setup. destruct (W10 c (or_introl eq_refl)) as [Hx1 Hx2].
-    (eexists; split; [reflexivity|]); sf; wl_proj; cbn [connecting negb procs_of];
-      repeat split; intros; try discriminate; try congruence; auto.
-    destruct H as [H|H]; congruence.
+    (eexists; split; [reflexivity|]); wfin.
   - (* ESetup SOk *)
     destruct Hgp0 as [->|[_ Hx]]; [|discriminate Hx].
     destruct (pp s) eqn:Epp; try discriminate Hp. destruct r; try discriminate Hn. bm Hp; inv_some Hp.
     pose proof (Hi3 _ eq_refl) as Hph. rewrite Hph in *.
     destruct (W10 c (or_intror eq_refl)) as [Hx1 Hx2].
-    (eexists; split; [reflexivity|]); sf; wl_proj; cbn [connecting negb procs_of];
-      repeat split; intros; try discriminate; try congruence; auto.
+    (eexists; split; [reflexivity|]); wfin.
   - (* EPub None by the processor: a QoS 0 publish *)
     destruct Hgp0 as [->|[_ Hx]]; [|discriminate Hx].
     destruct k; [discriminate Hn|]. cbn [wl_step]. wl_proj. rewrite W1. cbn [procs_of]. rewrite nmem_self.
     destruct (pp s) eqn:Epp; try discriminate Hp; bm Hp; inv_some Hp.
-    (eexists; split; [reflexivity|]); sf; wl_proj; cbn [procs_of];
-      repeat split; intros; try discriminate; try congruence; auto.
-    + apply W4; assumption.
-    + apply W4; assumption.
+    (eexists; split; [reflexivity|]); wfin.
   - (* ETerm: never by the processor *)
     destruct (pp s); discriminate Hp.
 Qed.
